@@ -185,12 +185,13 @@ type Spec struct {
 	Level           string // evidence "level"
 	Rule            string // how cases are generated / what is distinct & non-trivial
 	Assume          []string
-	Builds          []string      // extra sanitizer builds used by this check: "race", "asan"
-	SanFrac         int           // sanitizer workers get 1/SanFrac of the seeds (0 = none)
-	MinEvents       int64         // a run that observed fewer monitor events is a broken check
-	EventKey        string        // counter that must reach MinEvents
-	Workers         int           // 0 = 16
-	Stall           time.Duration // progress watchdog override
+	Builds          []string             // extra sanitizer builds used by this check: "race", "asan"
+	SanFrac         int                  // sanitizer workers get 1/SanFrac of the seeds (0 = none)
+	MinEvents       int64                // a run that observed fewer monitor events is a broken check
+	EventKey        string               // counter that must reach MinEvents
+	Workers         int                  // 0 = 16
+	Stall           time.Duration        // progress watchdog override
+	WorkerEnv       func(i int) []string // extra environment of plain worker i
 	HangIsViolation bool
 }
 
